@@ -82,6 +82,43 @@ Example C03_example :
 Proof. vm_compute. repeat split. Qed.
 
 (* ---------- equal UUIDs in different IRs: the per-IR premise (Model/TwinCache.v) ---------- *)
+(* ROUTE INDEPENDENCE.  Two histories -- any two -- that arrive at the same nodes with the same attributes (the parent attributes
+   included: containment as seen from the node) answer every UUID lookup alike, entry for entry: the table an IR ends up with does
+   not depend on the route by which its nodes came to it (constructor arguments, attribute assignment, collection methods, subtrees
+   moved whole or rebuilt piece by piece, detours through other IRs). *)
+Lemma same_ir_of : forall w1 w2, (forall n, nodes w1 n = nodes w2 n) -> forall n, ir_of w1 n = ir_of w2 n.
+Proof.
+  intros w1 w2 H n.
+  assert (G : forall x, getn w1 x = getn w2 x) by (intro x; unfold getn; rewrite H; reflexivity).
+  assert (P : forall x, par w1 x = par w2 x) by (intro x; unfold par; rewrite G; reflexivity).
+  assert (B1 : forall o, bind_o o (par w1) = bind_o o (par w2)) by (intros [x|]; [cbn; apply P|reflexivity]).
+  assert (B2 : forall o, bind_o o (fun s => bind_o (par w1 s) (par w1)) = bind_o o (fun s => bind_o (par w2 s) (par w2)))
+    by (intros [x|]; [cbn; rewrite P; apply B1|reflexivity]).
+  assert (B3 : forall o, bind_o o (fun b => bind_o (par w1 b) (fun s => bind_o (par w1 s) (par w1)))
+                         = bind_o o (fun b => bind_o (par w2 b) (fun s => bind_o (par w2 s) (par w2))))
+    by (intros [x|]; [cbn; rewrite P; apply B2|reflexivity]).
+  unfold ir_of, kindof. rewrite G. destruct (nk (getn w2 n)); try reflexivity; rewrite ?P; auto.
+Qed.
+
+Theorem C03_route_independent : forall w1 k1 w2 k2 ir, reachable_k w1 k1 -> reachable_k w2 k2 ->
+  (forall n, nodes w1 n = nodes w2 n) -> has w1 ir = true -> kindof w1 ir = KIR ->
+  forall u, get_by_uuid w1 ir u = get_by_uuid w2 ir u.
+Proof.
+  intros w1 k1 w2 k2 ir R1 R2 HN Hh Hk u.
+  assert (G : forall x, getn w1 x = getn w2 x) by (intro x; unfold getn; rewrite HN; reflexivity).
+  assert (Hh2 : has w2 ir = true) by (unfold has in *; rewrite <- HN; exact Hh).
+  assert (Hk2 : kindof w2 ir = KIR) by (unfold kindof in *; rewrite <- G; exact Hk).
+  pose proof (C03_cache_exact w1 k1 ir R1 Hh Hk) as E1.
+  pose proof (C03_cache_exact w2 k2 ir R2 Hh2 Hk2) as E2.
+  assert (Same : forall n, (In n (reach w1 ir) /\ nuuid (getn w1 n) = u) <-> (In n (reach w2 ir) /\ nuuid (getn w2 n) = u)).
+  { intro n. rewrite (C03_reach_is_containment w1 k1 ir n R1 Hk), (C03_reach_is_containment w2 k2 ir n R2 Hk2),
+      (same_ir_of w1 w2 HN), G. reflexivity. }
+  destruct (get_by_uuid w1 ir u) as [n1|] eqn:A1.
+  - symmetry. apply E2. apply Same. apply E1. exact A1.
+  - destruct (get_by_uuid w2 ir u) as [n2|] eqn:A2; [|reflexivity].
+    apply E2, Same, E1 in A2. rewrite A1 in A2. discriminate.
+Qed.
+
 Module Twin.
 Import TwinCache TwinCacheProofs.
 
@@ -210,6 +247,7 @@ Qed.
 End Twin.
 
 Print Assumptions C03_cache_exact.
+Print Assumptions C03_route_independent.
 Print Assumptions C03_none_otherwise.
 Print Assumptions C03_reach_is_containment.
 Print Assumptions C03_no_leak.
